@@ -327,6 +327,10 @@ RULES = {
     "R16b": [(".unwrap_or_else(Local::now)", ".unwrap_or_else(|| -> (r: DateTime<Local>) ensures r == clock_now() { Local::now() })")],
     # R3b (computed): a closure whose single parameter is a tuple pattern gets a variable parameter `p0__` and a destructuring `let`
     "R3b": [],
+    # R22: `new_spec.as_ref()` (S: AsRef<str>) -> shim `vas_ref(&new_spec)`
+    "R22": [("new_spec.as_ref()", "vas_ref(&new_spec)")],
+    # R21: `th.join().ok()` (JoinHandle::join returns Result<_, Box<dyn Any + Send>>: a dyn with two traits, outside Verus) -> shim `vjoin(th)`
+    "R21": [("th.join().ok()", "vjoin(th)")],
     # R20: `x.into_iter()` -> `x.vinto_iter()`: the eager iterator of prelude/viter.rs, whose inherent methods carry the names of the
     # Iterator adapters (the general form of R16)
     "R20": [(".into_iter()", ".vinto_iter()")],
